@@ -57,8 +57,11 @@ static inline void mpz_init_set_ui(mpz_ptr r, unsigned long u) { mpz_set_ui(r, u
 static inline void mpz_set_si(mpz_ptr r, long s) { r->v = s; }
 static inline void mpz_init_set_si(mpz_ptr r, long s) { r->v = s; }
 static inline unsigned long mpz_get_ui(mpz_srcptr a) { return (unsigned long)__abs_l(a->v); }
-static inline void mpz_neg(mpz_ptr r, mpz_srcptr a) { NO_OVF_SUB(0L, a->v); r->v = -a->v; }
-static inline void mpz_abs(mpz_ptr r, mpz_srcptr a) { NO_OVF_SUB(0L, a->v); r->v = __abs_l(a->v); }
+/* |v| and |-v| have the same bit length (fact of the integers), instantiated at the negation */
+static inline void mpz_neg(mpz_ptr r, mpz_srcptr a)
+{ NO_OVF_SUB(0L, a->v); __CPROVER_assume(UF(bits)(-a->v) == UF(bits)(a->v)); r->v = -a->v; }
+static inline void mpz_abs(mpz_ptr r, mpz_srcptr a)
+{ NO_OVF_SUB(0L, a->v); __CPROVER_assume(UF(bits)(-a->v) == UF(bits)(a->v)); r->v = __abs_l(a->v); }
 static inline void mpz_add(mpz_ptr r, mpz_srcptr a, mpz_srcptr b) { NO_OVF_ADD(a->v, b->v); r->v = a->v + b->v; }
 static inline void mpz_sub(mpz_ptr r, mpz_srcptr a, mpz_srcptr b) { NO_OVF_SUB(a->v, b->v); r->v = a->v - b->v; }
 static inline void mpz_add_ui(mpz_ptr r, mpz_srcptr a, unsigned long u)
@@ -142,6 +145,8 @@ static inline void mpz_sqrt(mpz_ptr r, mpz_srcptr a) { r->v = UF(sqrt)(a->v); }
 static inline void mpz_swap(mpz_ptr a, mpz_ptr b) { long t = a->v; a->v = b->v; b->v = t; }
 
 /* spec-level names for the same terms (used in contracts) */
+/* side condition "machine arithmetic treated as mathematical" for spec terms that add or negate */
+#define WORD_OK(x) ((x) > -0x7ffffffffffffff0L && (x) < 0x7ffffffffffffff0L)
 #define V(x) ((x)->v)
 #define MUL(a, b) UF(mul)((a), (b))
 #define MOD(a, m) UF(mod)((a), (m))
